@@ -554,6 +554,9 @@ func (c *Ctx) Finish(prop *Property, start time.Time, seed int, extra map[string
 		case Proved:
 			nproved++
 		}
+		if verbose && (o.Verdict == Proved || o.Verdict == Info) {
+			fmt.Printf("  [%s] %s %s %q: %s\n", o.Verdict, o.Rule, o.Pos, o.Key, o.Fact)
+		}
 		if o.Nontrivial && o.Verdict != Info {
 			if !distinct[o.Rule+"|"+o.Key] {
 				distinct[o.Rule+"|"+o.Key] = true
